@@ -4,10 +4,12 @@ import math
 
 from harness.core import pool, tb
 
-PROOF_MODULE = ["OdeVerif.Proofs.C13", "OdeVerif.Proofs.C13b"]
+PROOF_MODULE = ["OdeVerif.Proofs.C13", "OdeVerif.Proofs.C13b", "OdeVerif.Proofs.RefineMixed", "OdeVerif.Proofs.RefineMixedExample"]
+GENERATED = ["PyMixed"]
 THEOREMS = ["OdeVerif.C13.log_starts_at_iv", "OdeVerif.C13.time_strictly_increases", "OdeVerif.C13.ends_at_simTime",
             "OdeVerif.C13.precise_spike_once", "OdeVerif.C13.aliased_spike_once", "OdeVerif.C13.aliased_spike_boundary",
-            "OdeVerif.C13.enforceBounds_spec", "OdeVerif.C13.inner_logs_enforced", "OdeVerif.C13.analytic_seen_exact", "OdeVerif.C13.analytic_seen_exact_at"]
+            "OdeVerif.C13.enforceBounds_spec", "OdeVerif.C13.inner_logs_enforced", "OdeVerif.C13.analytic_seen_exact", "OdeVerif.C13.analytic_seen_exact_at",
+            "OdeVerif.Refine.integrateOde_refines"]
 LEVEL = "proof"
 
 SYSTEMS = [
